@@ -13,7 +13,9 @@ Record setup := mkSetup {
   su_p : params;
   su_def : cfg3;                      (* the defaults passed to Config *)
   su_srcs : list (bool * sv3);        (* per source: implements Watcher?, its initial Value() *)
-  su_nv : bool                        (* the config type has no Verify method *)
+  su_nv : bool;                       (* the config type has no Verify method *)
+  su_on_new : bool;                   (* Params.OnNewConfig is set *)
+  su_on_err : bool                    (* Params.OnWatchedError is set *)
 }.
 
 (* Verify of the harness config (A <= B); a type without the method always passes
@@ -105,7 +107,7 @@ Definition obs_eqb (x y : obs) : bool :=
 Definition csys := sys cfg3 sv3.
 
 Definition cstep (su : setup) : csys -> clabel -> option csys :=
-  step (stack3 (su_def su)) (verifyS su) (su_p su) true true cbcap3.
+  step (stack3 (su_def su)) (verifyS su) (su_p su) (su_on_new su) (su_on_err su) cbcap3.
 
 Definition cinit (su : setup) : list (cfg3 * bool) * outcome csys :=
   sys_init (stack3 (su_def su)) (verifyS su) (su_p su) (map snd (su_srcs su)) (map fst (su_srcs su)).
@@ -207,7 +209,7 @@ Definition model_agrees (c : ccase) : bool :=
 Definition model_enabled (su : setup) (ls : list clabel) : bool :=
   match snd (cinit su) with
   | Ok s0 =>
-      match run (stack3 (su_def su)) (verifyS su) (su_p su) true true cbcap3 s0 ls with
+      match run (stack3 (su_def su)) (verifyS su) (su_p su) (su_on_new su) (su_on_err su) cbcap3 s0 ls with
       | Some _ => true
       | None => false
       end
